@@ -42,6 +42,7 @@ TWIN_RENAMES = (
 
 import re as _re
 _ORD_RE = _re.compile(r"#\d+")
+_TOVEC_RE = _re.compile(r"<impl \[T\]>::to_vec\((arg\d+\.(?:body|query))\)")
 
 
 def norm_rows(rows):
@@ -50,6 +51,9 @@ def norm_rows(rows):
         txt = _ORD_RE.sub("", " & ".join(g) + " => " + v)
         for a, b in TWIN_RENAMES:
             txt = txt.replace(a, b)
+        # an owned copy of the request's bytes is spelled `req.body.clone()` on the owned path (clone is transparent to the
+        # evaluator) and `view.body.to_vec()` on the borrowed one
+        txt = _TOVEC_RE.sub(lambda m_: m_.group(1), txt)
         out.append(txt)
     return sorted(out)
 
@@ -335,6 +339,43 @@ def run(facts, R):
                 R.check("query_str(" in v or ".query" in v, "request-is-the-routing-key", b_.path, "the mount resolves the request's own query",
                         "pointer_for is given %s, which is not the query of the request being handled" % v[:120], t.get("span"), v[:80])
     R.floor("request-is-the-routing-key", n_key, 2, "pointer_for calls in the registry mount")
+    # ... and every in-crate forwarder (default trait methods, wrappers, the pipeline, the dispatch helpers, a mount that
+    # delegates to an inner router) hands downstream the very request it received: built-in handlers build their error
+    # responses from the request they see (create_error_response_like copies its id and query), so a re-addressed copy makes
+    # the error answers of a route differ from the same handler registered flat, and from the request's query
+    DOWN = ("server::HandlerErased::handle", "server::HandlerErased::handle_with_ctx", "server::HandlerErased::handle_view",
+            "server::Middleware::handle", "server::Next::<'a>::run")
+    n_fwd = 0
+    for b_ in facts.bodies.values():
+        if not b_.path.startswith(("server::", "<server::", "registry::", "<registry::", "server_request::", "middleware::", "<middleware::")):
+            continue
+        reqs = [a for a in range(1, b_.argc + 1) if "message::Message" in b_.local_ty(a)]
+        if not reqs:
+            continue
+        s_ = None
+        for i, t in b_.calls():
+            if not (t["callee"].get("decl") in DOWN or t["callee"]["path"] in DOWN) or len(t["args"]) < 2:
+                continue
+            s_ = s_ or Sym(b_)
+            n_fwd += 1
+            v = s_.op(t["args"][1])
+            while v[0] == "call" and len(v[2]) == 1 and v[1].rsplit("::", 1)[-1] in ("deref", "as_ref", "borrow", "to_message", "clone", "as_view", "view"):
+                v = v[2][0]
+            ok = v[0] == "arg" and v[1] in reqs
+            if not ok and v[0] == "agg" and str(v[1]).rsplit("::", 1)[-1] in ("Message", "MessageView"):
+                # a field-by-field copy of the received request
+                d_ = dict(v[3])
+
+                def _same(e_, f_):
+                    while e_ is not None and e_[0] == "call" and len(e_[2]) == 1 and e_[1].rsplit("::", 1)[-1] in ("deref", "as_ref", "borrow", "clone", "to_vec", "to_owned", "as_slice"):
+                        e_ = e_[2][0]
+                    return e_ is not None and e_[0] == "field" and e_[2] == f_ and e_[1][0] == "arg" and e_[1][1] in reqs
+                ok = all(_same(d_.get(f_), f_) for f_ in ("header", "query", "body"))
+            R.check(ok, "request-is-the-routing-key", b_.path, "the request handed downstream is the request received",
+                    "%s hands %s to %s instead of the request it was given: the inner handler's own error responses echo that request's query and id, so "
+                    "the route answers differently from the same handler registered directly" % (b_.path.rsplit("::", 1)[-1], render(v)[:120], t["callee"]["path"].rsplit("::", 2)[-1]),
+                    t.get("span"), "request forwarded unchanged")
+    R.floor("request-is-the-routing-key", n_fwd, 12, "delegations to a downstream handler / middleware")
 
     # ---------------- exact-key-verbatim: "an exactly registered path always wins" needs the exact table to be keyed by the very
     # string that requests are looked up with.  Router::get looks the raw request path up; so every insert into the exact
